@@ -244,6 +244,12 @@ def run_case(case, obs):
     ny, nx = bb.shape
     if cls in gen.MASKABLE and 0 < nx * ny <= 20000:
         region.to_mask(mode='center')
+        # the box confines the mask in every mode the class supports
+        if 'Annulus' not in cls:
+            region.to_mask(mode='subpixels', subpixels=prng.choice([1, 2, 3]))
+            if cls in ('CirclePixelRegion', 'EllipsePixelRegion'):
+                region.to_mask(mode='exact')
+            obs.count('mask-boxes-in-other-modes')
 
 
 def decorrelate(spec, prng, sidex, sidey):
